@@ -25,6 +25,7 @@ type histJob struct {
 	spec *Spec
 	res  *Result
 	prev *Spec // pairs: the request served just before on the same goroutine (same pooled filter-chain object)
+	skip bool  // the process stalled while this history ran (scripted events > 25 ms late, three times): not used
 }
 
 // run jobs concurrently (each history is mostly sleeping)
@@ -53,7 +54,7 @@ func runAll(jobs []*histJob, par int) {
 			j.res = runPrepared(preps[i])
 			<-sem
 		}(i, j)
-		time.Sleep(250 * time.Microsecond)
+		time.Sleep(400 * time.Microsecond)
 	}
 	wg.Wait()
 }
@@ -425,7 +426,7 @@ func c03(args []string) int {
 	for i, sp := range specs {
 		jobs[i] = &histJob{id: i + 1, spec: sp}
 	}
-	runAll(jobs, run.N(400, 400))
+	runAll(jobs, 200)
 	return finishProxy(run, jobs, c03Finder, plainSpec)
 }
 
@@ -453,16 +454,56 @@ func obsKey(r *Result) string {
 // or a sub-handler timing glitch such as a timer callback already in flight when Stop() is called - outside the model's
 // handler-level atomicity) it is run a third time and an observation seen twice is kept.  A deterministic deviation of the
 // implementation repeats and is kept; how often re-runs were needed is reported in the distribution.
+// maxLateMs: how late the scripted events of a run were delivered
+func maxLateMs(r *Result) int {
+	m := 0
+	for _, x := range r.Rec {
+		if x.Kind == "ev.start" {
+			if d := int(x.T/1000) - r.Spec.Events[x.K].AtMs; d > m {
+				m = d
+			}
+		}
+	}
+	return m
+}
+
 func stabilise(run *Run, jobs []*histJob) {
+	// a stalled process (GC pause, CPU starvation on a shared machine) voids the time-slot design: re-run such histories
+	for pass := 0; pass < 3; pass++ {
+		var late []*histJob
+		for _, j := range jobs {
+			if j.res.Err == "" && maxLateMs(j.res) > 25 {
+				late = append(late, &histJob{id: j.id + 3000000 + pass*1000000, spec: j.spec})
+			}
+		}
+		if len(late) == 0 {
+			break
+		}
+		run.Sum.Distribution["stalled:rerun"] += len(late)
+		runAll(late, 100)
+		k := 0
+		for _, j := range jobs {
+			if j.res.Err == "" && maxLateMs(j.res) > 25 {
+				j.res = late[k].res
+				k++
+			}
+		}
+	}
+	for _, j := range jobs {
+		if j.res.Err == "" && maxLateMs(j.res) > 25 {
+			j.skip = true
+			run.Sum.Distribution["stalled:dropped"]++
+		}
+	}
 	second := make([]*histJob, len(jobs))
 	for i, j := range jobs {
 		second[i] = &histJob{id: j.id + 1000000, spec: j.spec}
 	}
-	runAll(second, 400)
+	runAll(second, 200)
 	var third []*histJob
 	var idx []int
 	for i, j := range jobs {
-		if second[i].res.Err != "" || obsKey(j.res) == obsKey(second[i].res) {
+		if j.skip || second[i].res.Err != "" || maxLateMs(second[i].res) > 25 || obsKey(j.res) == obsKey(second[i].res) {
 			continue
 		}
 		run.Sum.Distribution["unstable:second-run-differs"]++
@@ -472,10 +513,10 @@ func stabilise(run *Run, jobs []*histJob) {
 	if len(third) == 0 {
 		return
 	}
-	runAll(third, 400)
+	runAll(third, 200)
 	for n, t := range third {
 		i := idx[n]
-		if t.res.Err != "" {
+		if t.res.Err != "" || maxLateMs(t.res) > 25 {
 			continue
 		}
 		k1, k2, k3 := obsKey(jobs[i].res), obsKey(second[i].res), obsKey(t.res)
@@ -500,6 +541,9 @@ func finishProxy(run *Run, jobs []*histJob, finder func(*Run, *histJob), trivial
 	}
 	stabilise(run, jobs)
 	for _, j := range jobs {
+		if j.skip {
+			continue
+		}
 		if j.res.Err != "" {
 			fmt.Println("harness error:", j.res.Err)
 			return 2
